@@ -94,6 +94,11 @@ EDITS = {
                "            if sort.data == 'Float16':\n                ew = 5\n",
                "            if sort.data == 'Float16':\n                ew = 6\n",
                'wrong exponent width for Float16'),
+    'C16.R16': ('ddsmt/smtlib.py',
+                "            elif sort.data == 'Float32':\n                ew = 8\n                sw = 23\n",
+                "            elif sort.data == 'Float32':\n                ew = 8\n                sw = 22\n",
+                'a Float32 default constant with a 22-bit significand: its '
+                'inferred sort is not Float32'),
     'C16.R10': ('ddsmt/smtlib.py',
                 "def is_var(node):\n",
                 "import functools\n\n\n@functools.lru_cache(maxsize=None)\ndef is_var(node):\n",
